@@ -28,7 +28,7 @@ theorem sorted_split (f : α × Nat → Nat) (n : Nat) :
       have e2 : t.filter (fun x => !decide (f x < n)) = t := by
         apply List.filter_eq_self.2
         intro y hy; simp [hall y hy]
-      simp [List.filter_cons, ha, e1, e2]
+      simp [ha, e1, e2]
 
 /-- the radix classes `0 … n-1` of a list -/
 def classes (f : α × Nat → Nat) (l : List (α × Nat)) (n : Nat) : List (List (α × Nat)) :=
